@@ -194,6 +194,22 @@ impl LinkCtl {
     pub fn written_b_to_a(&self) -> u64 {
         self.b_to_a.lock().unwrap().written
     }
+    /// The b side vanishes without a word (crash, route lost): nothing more
+    /// arrives from it, not even the end of the stream, and whatever a
+    /// writes from now on is answered with a reset (the write fails).
+    pub fn vanish_b(&self) {
+        let w = {
+            let mut g = self.a_to_b.lock().unwrap();
+            g.write_dead = Some(Cut::Rst);
+            g.write_waker.take()
+        };
+        if let Some(w) = w {
+            w.wake()
+        }
+        let mut g = self.b_to_a.lock().unwrap();
+        g.write_dead = Some(Cut::Fin);
+        g.inflight.clear();
+    }
     /// Kill both directions now (RST as seen by both readers).
     pub fn reset_now(&self) {
         for h in [&self.a_to_b, &self.b_to_a] {
